@@ -1025,10 +1025,12 @@ class Interp:
                 with kernel.budget(OP_BUDGET * 4):
                     self.compare(self.root.obj, self.root, [])
                     self.queries(self.root, [])
-            except Violation:
+            except (Violation, RuntimeError, KeyError, AttributeError,
+                    IndexError):
                 if self.tree_epoch != epoch:
                     continue    # a load of this very sweep rearranged the
-                                # tree under it: judge the new tree afresh
+                                # tree under it (also the model's own dicts,
+                                # mid-iteration): judge the new tree afresh
                 raise
             except SimHang as e:
                 self.fail('C11', 'hang', f'query: {e}')
@@ -1157,7 +1159,7 @@ class Interp:
                               f'get({key!r}, default) returned '
                               f'{type(g).__name__}, nothing is stored there')
                 self.expect_keyerror(root, key)
-        for name, sub in mm.maps.items():
+        for name, sub in list(mm.maps.items()):
             if len(path) < 5:
                 self.queries(sub, path + [name])
 
